@@ -458,3 +458,10 @@ T('C11', 'group-len', [(GM, "                vals = synthetic_col(marg[idx], gro
 T('C11', 'condition-on-all-generated', [(GM, "            proj = tuple(relevant)\n", "            proj = tuple(used)\n")])
 T('C11', 'generator-locals-renamed', [(GM, "            frac, integ = np.modf(counts)\n            integ = integ.astype(int)\n            extra = total - integ.sum()\n            if extra > 0:\n                idx = np.random.choice(counts.size, extra, False, frac / frac.sum())\n                integ[idx] += 1\n            vals = np.repeat(np.arange(counts.size), integ)",
    "            remainder, whole = np.modf(counts)\n            whole = whole.astype(int)\n            missing = total - whole.sum()\n            if missing > 0:\n                lucky = np.random.choice(counts.size, missing, False, remainder/remainder.sum())\n                whole[lucky] += 1\n            vals = np.repeat(np.arange(counts.size), whole)")])
+
+# ---- C16: sibling agreement of the GBP message sets (seed C16-1)
+RGF = 'src/mbi/region_graph.py'
+K('C16', 'gbp-D-includes-internal-edges', [(RGF, "                            for p1 in set(self.parents[d]) - {r} - set(self.descendants[r]):\n                                D[p,r].add((p1,d))", "                            for p1 in set(self.parents[d]) - {r}:\n                                D[p,r].add((p1,d))")], 'gbp-message-sets')
+K('C16', 'gbp-N-around-receiver', [(RGF, "                        for s in self.parents[p]:\n                            N[p,r].add((s,p))", "                        for s in self.parents[r]:\n                            N[p,r].add((s,r))")], 'gbp-message-sets')
+K('C16', 'gbp-D-keeps-own-edge', [(RGF, "                        for s in set(self.parents[r]) - {p}:\n                            D[p,r].add((s,r))", "                        for s in set(self.parents[r]):\n                            D[p,r].add((s,r))")], 'gbp-message-sets')
+T('C16', 'gbp-D-loop-vars-renamed', [(RGF, "                        for d in self.descendants[r]:\n                            for p1 in set(self.parents[d]) - {r} - set(self.descendants[r]):\n                                D[p,r].add((p1,d))", "                        for below in self.descendants[r]:\n                            for outside in set(self.parents[below]) - {r} - set(self.descendants[r]):\n                                D[p,r].add((outside,below))")])
